@@ -1,5 +1,5 @@
 // run harness: evaluate a program on a fresh engine and report tree, stdout, result.
-//   input : <opt|raw> <hex program> [repeat=<k>]
+//   input : <opt|raw> <hex program> [repeat=<k>] [nohints] [shape]
 //   output: TREE <dump> || OUT <hex stdout> || RES <value>     or … || ERR(<class>) <hex reason> [<call stack>]
 #include "astdump.hpp"
 #include <fcntl.h>
@@ -55,8 +55,21 @@ int main() {
     const bool opt = f[0] == "opt";
     const std::string prog = vf::unhex(f[1]);
     int repeat = 1;
-    for (size_t i = 2; i < f.size(); ++i) if (f[i].rfind("repeat=", 0) == 0) repeat = std::stoi(f[i].substr(7));
+    bool nohints = false, shape = false;
+    for (size_t i = 2; i < f.size(); ++i) {
+      if (f[i].rfind("repeat=", 0) == 0) repeat = std::stoi(f[i].substr(7));
+      if (f[i] == "nohints") nohints = true;
+      if (f[i] == "shape") shape = true;
+    }
+    chaiscript::detail::Dispatch_Engine::verif_ignore_hints().store(nohints);
     auto chai = vf::make_engine(opt);
+    auto show_shape = [&]() {
+      auto a = chai->verif_stack_shape();
+      std::string r;
+      for (size_t i = 0; i < a.size(); ++i) r += (i ? "," : "") + std::to_string(a[i]);
+      return r;
+    };
+    const std::string shape_before = shape ? show_shape() : std::string();
     std::string res;
     AST_NodePtr tree;
     try {
@@ -104,7 +117,16 @@ int main() {
     off_t n = lseek(cap, 0, SEEK_END);
     std::string out(static_cast<size_t>(n), '\0');
     pread(cap, out.data(), out.size(), 0);
-    return res + " || OUT " + vf::hex(out) + " || " + outcome;
+    std::string tail;
+    if (shape) {
+      tail = " || SHAPE " + shape_before + " -> " + show_shape();
+      std::string probe;
+      try { probe = std::to_string(chai->eval<int>("var verif_probe_a = 20; { var verif_probe_a = 1 }; verif_probe_a + 1")); } catch (...) { probe = "ERR"; }
+      std::string locals;
+      for (const auto &kv : chai->get_locals()) locals += kv.first + ",";
+      tail += " PROBE " + probe + " LOCALS " + locals;
+    }
+    return res + " || OUT " + vf::hex(out) + " || " + outcome + tail;
   };
   return vf::run_cases(fn, true, 20);
 }
